@@ -9,7 +9,7 @@ PROPS = {
         engine="names",
         check_targets=["Check/CheckNames.vo"],
         proof_targets=["Props/C29.vo"],
-        theorems=[("C29", "C29_names_follow_functions"), ("C29", "C29_import_name_index"), ("C29", "C29_partial"),
+        theorems=[("C29", "C29_names_follow_functions"), ("C29", "C29_import_name_index"), ("C29", "C29_names_follow_import_items"), ("C29", "C29_partial"),
                   ("C29", "C29_partial_global_entity"), ("C29", "C29_checker_sound")],
         quick=dict(n=1500), thorough=dict(n=30000), per_shard=300,
         rule="generated modules (0-5 imports of all five kinds, 1-4 local functions with parameters and locals, 0-3 globals, a table, 0-1 memories, element / data segments) with a complete name section "
@@ -18,7 +18,7 @@ PROPS = {
              "FunctionBuilder::finish_module) mixed with naming calls (Module::set_fn_name, functions.set_local_fn_name, imports.set_fn_name, imports.set_name, FunctionBuilder::set_name) on the ids "
              "the API really returned; 3/10 of the histories only append and name (no input index moves); non-trivial = name section present and history non-empty",
         level_text="Proof (all inputs, all histories): the rebuilt function-name map consists exactly of (position of a live local function after recalculate_ids = the index its stored id is mapped to, body name) "
-                   "and (position of a live function import among the live function imports = its Wasm function index, custom name). Partial proof for the local / global maps (written back with the parsed "
+                   "and (position of an emitted function import among the emitted function imports = its Wasm function index = the index the id map sends the import's function id to, custom name of its entry; the imports are emitted in index order since the repair of D02: C29_names_follow_import_items). Partial proof for the local / global maps (written back with the parsed "
                    "indices: right exactly when the id maps are the identity on the named ids; for globals the entity is the same by fingerprint). The whole property (soundness and retention of function, "
                    "local and global names against stable handles, naming calls, conversions) is decided per history in Coq on the decoded real output. Known classes D21, D25 (what is left of it: imports.set_fn_name on ids of imports added / converted after parsing), D202; D201, the Module::set_fn_name / miscount parts of D25 and the index-space defects D06 / D26 (a deleted item stayed in the function / global vector; former witnesses: C29_former_D06_witness_holds, C29_former_D26_witness_holds) are repaired (fix: commits).",
         level_note="Trusted: Coq kernel + vm_compute; the harness (module generator with fingerprints, name tokens, wasmparser decoding of the output's name section and layout). Modelled, not verified: "
